@@ -77,6 +77,7 @@ func (x *ctx) fail(sig, format string, args ...any) {
 	st, _ := x.step.Load().(string)
 	x.msg = fmt.Sprintf(format, args...) + "\n  at step " + st
 }
+
 // resig replaces the signature of the recorded failure by a more specific defect class.
 func (x *ctx) resig(sig, why string) {
 	x.mu.Lock()
